@@ -43,6 +43,10 @@ def run(check: Check, repo: Repo, tier: str) -> None:
     check.floor("CACHE-ALIAS", 20, "container mutation sites in validation/")
     V.typeinfo_balance(check, repo, classes)
     V.limit(check, repo)
+    V.default_is_none(check, repo, [repo.func('validation.validate', 'validate'), repo.func('validation.validate', 'validate_sdl')])
+    from rules import language_rules as L
+    L.result_filter(check, repo)
+    L.parallel_returns(check, repo)
     rule_mods = [m for m in vmods if m.name.startswith("graphql.validation.rules.") and ".custom" not in m.name]
     V.no_read(check, repo, model, rule_mods + ctx)
     # NO-WRITE
